@@ -356,6 +356,32 @@ static void foreign_check(Obj *o, int k, vf_rng *r, std::string &desc)
 	if (ret < 0) { same(before, snap(o->obj(), o->kind), -1, "cxx:copy:refused-modified", ctx); vf_count("foreign:refused", 1); }
 	else vf_count("foreign:accepted", 1);
 }
+
+/* reset through the identifier entry point: mpt_object_set_property(obj, mask, id, no value) */
+static void entry_reset(Obj *o, int k, vf_rng *r, std::string &desc)
+{
+	const PN &pn = names[k].n[vf_below(r, names[k].cnt)];
+	Snap before = snap(o->obj(), o->kind);
+	int t = find(before, pn.get);
+	VF_CHECK(t >= 0, "cxx:get:name-missing", "%s: property '%s' is not listed", o->kind, pn.get);
+	mpt::identifier id;
+	if (!id.set_name(pn.set)) vf_inconclusive("identifier::set_name failed");
+	std::string ctx = std::string("mpt_object_set_property(") + o->kind + ", \"" + pn.set + "\", no value)";
+	vf_log("%s", ctx.c_str());
+	vf_fp(pn.set, strlen(pn.set)); vf_fp_u64(0xe9);
+	vf_at("mpt_object_set_property");
+	int ret = mpt::mpt_object_set_property(&o->obj(), mpt::TraverseAll | mpt::TraverseChange | mpt::TraverseDefault, &id, 0);
+	vf_count("mpt_object_set_property", 1);
+	VF_CHECK(ret == 0, "cxx:entry:reset-refused", "%s returned %d", ctx.c_str(), ret);
+	Snap after = snap(o->obj(), o->kind);
+	same(before, after, t, "cxx:set:other-property-changed", ctx);
+	Obj *f = o->fresh();
+	Snap def = snap(f->obj(), f->kind);
+	f->release();
+	if (!(after[t] == def[t])) vf_fail("cxx:entry:reset-not-default", "%s: '%s' is %s, a fresh object has %s", ctx.c_str(), pn.get, after[t].show().c_str(), def[t].show().c_str());
+	vf_count("monitor:entry-resets-compared", 1);
+	desc += std::string(" reset-entry:") + pn.set;
+}
 static void case_objects(vf_rng *r)
 {
 	int k = (int) vf_below(r, NKinds), steps = vf_range(r, 4, 20);
@@ -364,6 +390,7 @@ static void case_objects(vf_rng *r)
 	vf_fp_u64(k);
 	for (int s = 0; s < steps; s++) {
 		if (vf_chance(r, 1, 8)) foreign_check(o, k, r, desc);
+		else if (vf_chance(r, 1, 6)) entry_reset(o, k, r, desc);
 		else if (vf_chance(r, 1, 4)) copy_check(o, k, r, desc);
 		else set_text(o, k, r, desc);
 	}
